@@ -270,6 +270,100 @@ func R17(p *core.Prog) *core.Result {
 	}
 	r.Stats["globals_of_mutable_type"] = mutableGlobals
 
+	// (3c) ALIASED-FIELD: an instance field that is made to point into global memory (e.g. a slice of a
+	// package-level table) must never be written through: the write would land in the shared table.
+	type fieldKey struct {
+		t *types.Named
+		f int
+	}
+	aliased := map[fieldKey]string{}
+	for _, f := range funcs {
+		for _, b := range f.Blocks {
+			for _, in := range b.Instrs {
+				st, ok := in.(*ssa.Store)
+				if !ok {
+					continue
+				}
+				fa, ok := st.Addr.(*ssa.FieldAddr)
+				if !ok {
+					continue
+				}
+				n := namedOf(fa.X.Type())
+				if n == nil {
+					continue
+				}
+				switch st.Val.Type().Underlying().(type) {
+				case *types.Slice, *types.Map, *types.Pointer:
+				default:
+					continue
+				}
+				for _, g := range globalRoots(st.Val) {
+					aliased[fieldKey{n, fa.Field}] = g.Pkg.Pkg.Name() + "." + g.Name() + " (assigned in " + core.FuncKey(f) + " at " + p.Pos(st.Pos()) + ")"
+				}
+			}
+		}
+	}
+	r.Stats["instance_fields_aliasing_globals"] = len(aliased)
+	if len(aliased) > 0 {
+		through := map[fieldKey]string{}
+		for _, f := range funcs {
+			if isInitFunc(f) {
+				continue
+			}
+			f := f
+			writeSites(f, func(in ssa.Instruction, ref ssa.Value, what string) {
+				seen := map[ssa.Value]bool{}
+				var walk func(v ssa.Value)
+				walk = func(v ssa.Value) {
+					if v == nil || seen[v] {
+						return
+					}
+					seen[v] = true
+					switch x := v.(type) {
+					case *ssa.IndexAddr:
+						walk(x.X)
+					case *ssa.Slice:
+						walk(x.X)
+					case *ssa.Phi:
+						for _, e := range x.Edges {
+							walk(e)
+						}
+					case *ssa.FieldAddr:
+						walk(x.X)
+					case *ssa.UnOp:
+						if x.Op.String() == "*" {
+							if fa, ok := x.X.(*ssa.FieldAddr); ok {
+								if n := namedOf(fa.X.Type()); n != nil {
+									if _, ok := aliased[fieldKey{n, fa.Field}]; ok {
+										through[fieldKey{n, fa.Field}] = what + " in " + core.FuncKey(f) + " at " + p.Pos(in.Pos())
+									}
+								}
+							}
+							walk(x.X)
+						}
+					}
+				}
+				walk(ref)
+			})
+		}
+		var fks []fieldKey
+		for k := range aliased {
+			fks = append(fks, k)
+		}
+		sort.Slice(fks, func(i, j int) bool {
+			return fks[i].t.String()+fmt.Sprint(fks[i].f) < fks[j].t.String()+fmt.Sprint(fks[j].f)
+		})
+		for _, k := range fks {
+			fname := k.t.Underlying().(*types.Struct).Field(k.f).Name()
+			key := k.t.Obj().Pkg().Name() + "." + k.t.Obj().Name() + "." + fname
+			if w, bad := through[k]; bad {
+				r.Fail(".ALIASED-FIELD", key, p.Pos(k.t.Obj().Pos()), "instance field "+key+" points into package-level memory "+aliased[k]+" and is written through ("+w+"): one instance changes the table every other instance reads", "")
+			} else {
+				r.Ok(".ALIASED-FIELD", p.Pos(k.t.Obj().Pos()), "instance field "+key+" aliases "+aliased[k]+" and is only read through")
+			}
+		}
+	}
+
 	// (4) sync / atomic use
 	syncUses := 0
 	for _, pk := range p.All {
